@@ -37,7 +37,8 @@ RULE = (
     "empty and vertices-only x every export option, x {no, face, vertex} colours; point clouds; "
     "instanced / nested / renamed scene graphs with rigid, similarity, mirror and affine edges, "
     "specially treated node names (world, camera*, xml characters, digits, non-ascii), a renamed "
-    "base frame, edges within 1e-8 of the identity, scenes holding Path2D / Path3D (dict, glb, "
+    "base frame, edges within 1e-8 of the identity (several parts; ONE part, shifted / turned / "
+    "scaled / placed by a group; every instance of one part), scenes holding Path2D / Path3D (dict, glb, "
     "gltf) and scenes of planar-placed drawings (svg); Path2D/3D with lines, arcs, circles and "
     "(dict) Bezier / B-spline entities; cubic voxel grids and boxes with uniform / non-uniform "
     "extents) through every exporter that has a loader (enumerated from the registries) x "
@@ -561,7 +562,8 @@ class SceneSpec:
           name=<name_class>     the node, else its nearest ancestor, has a specially treated name
           base=renamed          the base frame of the scene is not called "world"
         An instance whose path holds an edge within 1e-8 of the identity (but not the identity)
-        is 'edge=near_identity' whatever its node class.
+        is 'edge=near_identity' whatever its node class, followed by 'instances=one' (round 5)
+        when it is the only geometry node of the scene.
         """
         world = {None: I4, self.base: I4}
         edge_of = {n: M for n, _, M, _ in self.nodes}
@@ -595,6 +597,8 @@ class SceneSpec:
             feat = "node=" + cat
             if any(near_identity(edge_of[n]) for n in path):
                 feat = "edge=near_identity"
+                if sum(1 for x in self.nodes if x[3] is not None) == 1:
+                    feat += " instances=one"  # (round 5) the only geometry node of the scene
             else:
                 nc = next((name_class(n) for n in path[::-1] if name_class(n)), None)
                 if nc:
@@ -1020,7 +1024,12 @@ SCENE_CLASSES = (
     # round 4: node names an exporter / loader may treat specially; a base frame that is not
     # called "world"; edges within 1e-8 of the identity (small units); drawings in a scene
     "names_special", "base_renamed", "tiny_offsets", "with_path2d",
+    # round 5: scenes modelled in small units whose ONLY instance (or every instance) is placed
+    # by a transform within 1e-8 of the identity: the scenes a "one mesh at the identity needs
+    # no baking" shortcut of a flattening exporter (stl, ply, obj) takes for unplaced ones
+    "tiny_single", "tiny_single_turned", "tiny_single_nested", "tiny_single_scaled", "tiny_instanced",
 )
+TINY_CLASSES = ("tiny_offsets", "tiny_single", "tiny_single_turned", "tiny_single_nested", "tiny_single_scaled", "tiny_instanced")
 # scenes of Path2D drawings placed by planar transforms: for the formats that export them (svg)
 SVG_SCENE_CLASSES = ("drawings_flat", "drawings_instanced", "drawings_nested")
 _SPECIAL_NAMES = ("cameraman", "a<b&c\"d", "sp ace", "\u00fcn\u00ef", "0", "material_0")
@@ -1139,6 +1148,46 @@ def gen_scene(cls, gseed):
         F = np.eye(4)
         F[:3, 3] = [float(rng.uniform(1e6, 2e6)), 0.0, 0.0]
         nodes = [("left", None, np.eye(4), "left"), ("right", None, T, "right"), ("rig", None, R, None), ("far", "rig", F, "far")]
+        return SceneSpec(cls, gseed, geoms, nodes)
+    if cls in TINY_CLASSES:
+        # one part of size 1e-9 (node name == geometry name, the layout every format gets right)
+        # whose world transform differs from the identity by less than 1e-8 in every entry and
+        # still moves it by about its own size
+        geoms["part"] = gen_mesh("mag_1e-9", "none", int(rng.integers(2**31)))
+
+        # Every entry of (world matrix - identity) stays within +-4e-9, so the matrix passes
+        # `util.allclose(M, eye)` (peak-to-peak of the difference < 1e-8) as well as a plain
+        # max-abs < 1e-8 test: whichever way "is the identity" is decided, the case reaches it.
+        def shift(f=1.0):
+            T = np.eye(4)
+            T[:3, 3] = f * rng.uniform(5e-10, 4e-9, size=3) * rng.choice([-1.0, 1.0], size=3)
+            return T
+
+        if cls == "tiny_single":
+            nodes = [("part", None, shift(), "part")]
+        elif cls == "tiny_single_turned":
+            a = float(rng.uniform(1e-9, 3e-9)) * float(rng.choice([-1.0, 1.0]))
+            M = shift()
+            i, j = [(0, 1), (1, 2), (0, 2)][int(rng.integers(3))]
+            M[i, i] = M[j, j] = np.cos(a)
+            M[i, j], M[j, i] = -np.sin(a), np.sin(a)
+            nodes = [("part", None, M, "part")]
+        elif cls == "tiny_single_scaled":
+            # a scale of 1 + few 1e-9 is below anything a format resolves; the shift is not
+            M = shift()
+            M[:3, :3] *= 1.0 + float(rng.uniform(1e-9, 3e-9))
+            nodes = [("part", None, M, "part")]
+        elif cls == "tiny_single_nested":
+            # the placement sits on a group node, the leaf itself is at the identity (or shifted
+            # once more): one geometry node whose WORLD transform is near the identity
+            leaf = np.eye(4) if rng.random() < 0.5 else shift(0.5)
+            nodes = [("rig", None, shift(0.5), None), ("part", "rig", leaf, "part")]
+        else:  # tiny_instanced: every instance near the identity, none at it
+            # (the copies hang below a group: a leaf of the base frame named unlike its geometry
+            # is lost by the 3MF exporter whatever its transform, finding T1)
+            nodes = [("part", None, shift(), "part"), ("rig", None, shift(0.5), None)]
+            for i in range(int(rng.integers(1, 3))):
+                nodes.append(("copy%d" % i, "rig", shift(0.5), "part"))
         return SceneSpec(cls, gseed, geoms, nodes)
     ng = 2 if cls != "random" else int(rng.integers(1, 4))
     mesh_cls = ["soup_unit", "soup_int", "seam", "single_face"]
@@ -1894,7 +1943,8 @@ def judge_scene(spec, fmt, eo, lo, route):
                     if found:
                         if Qi is not Q:
                             # the instance is there, but only on the wider grid (see _ply_loose)
-                            res.add("coords_beyond_precision", {"node": node, "geometry": gname, "max_err": res.err}, feat="geom=mesh")
+                            res.add("coords_beyond_precision", {"node": node, "geometry": gname, "max_err": res.err},
+                                    feat="geom=mesh" + (" " + feat if "instances=one" in feat else ""))
                         break
                 if not found:
                     missing_faces += len(gs.F)
@@ -2467,7 +2517,7 @@ def scene_classes_for(fmt):
             continue
         if c in ("with_path", "with_path2d") and not F.get("paths"):
             continue
-        if c == "tiny_offsets" and fmt == "dict64":
+        if c in TINY_CLASSES and fmt == "dict64":
             # trimesh.load(<dict64>) cannot switch processing off: a part of size 1e-9 is merged
             # into one vertex (tol.merge = 1e-8) and nothing is left to compare
             continue
